@@ -157,9 +157,15 @@ func NewKeyUsage(critical bool, flags KeyUsage) pkix.Extension {
 	content := make([]byte, 1)
 	content[0] = uint8(flags & 0xFE) //lowest bit must be zero
 
-	bs := asn1.BitString{
-		Bytes:     content,
-		BitLength: 7,
+	//DER requires a named bit list to end with its last set bit
+	bs := asn1.BitString{}
+	if content[0] != 0 {
+		trailingZeros := 0
+		for b := content[0]; b&1 == 0; b >>= 1 {
+			trailingZeros++
+		}
+		bs.Bytes = content
+		bs.BitLength = 8 - trailingZeros
 	}
 
 	//disard error since we control the data
